@@ -64,8 +64,10 @@ class Body:
         self.locals = mir['locals']
         self._build_cfg()
         self._build_defs()
-        self._rd_in = None
+        self._rin_cache = {}
         self._term_cache = {}
+        self._guard_cache = {}
+        self._blk_defs = {}
         self._inprogress = set()
 
     # ------------------------------------------------------------------ CFG
@@ -202,88 +204,82 @@ class Body:
                 p = t['dest']
                 self.defs.setdefault(p['l'], []).append((b, 'T', not p['pr']))
 
-    def _compute_rd(self):
-        # IN[b][local] = frozenset of sites; sites: (b, i) or ('arg', l)
-        nb = self.nb
-        gen = [dict() for _ in range(nb)]     # local -> (sites set, kills?)  last-effect summary per block
-        for b in range(nb):
-            g = {}
+    def _block_defs(self, b):
+        bd = self._blk_defs.get(b)
+        if bd is None:
+            bd = {}
             blk = self.blocks[b]
-            if blk['cleanup']:
+            if not blk['cleanup']:
+                for j, s in enumerate(blk['st']):
+                    if s['s'] == 'assign':
+                        p = s['place']
+                        if p['pr'] and p['pr'][0]['p'] == 'deref':
+                            continue
+                        bd.setdefault(p['l'], []).append((j, not p['pr']))
+                    elif s['s'] == 'setdiscr':
+                        bd.setdefault(s['place']['l'], []).append((j, False))
+                t = blk['term']
+                if t.get('t') == 'call':
+                    bd.setdefault(t['dest']['l'], []).append((10 ** 9, not t['dest']['pr']))
+            self._blk_defs[b] = bd
+        return bd
+
+    def _reach_in(self, b, l):
+        """definitions of l reaching the entry of block b: on-demand backward search, memoised per (block, local).
+        (A dense forward dataflow would need |blocks| x |locals| space, which explodes on the straight-line
+        initialisers of large constant tables.)"""
+        key = (b, l)
+        r = self._rin_cache.get(key)
+        if r is not None:
+            return r
+        if l not in self.defs:
+            r = frozenset([('arg', l)]) if 1 <= l <= self.nargs else frozenset()
+            self._rin_cache[key] = r
+            return r
+        acc = set()
+        visited = set()
+        stack = list(self.pred[b])
+        if b == 0 and 1 <= l <= self.nargs:
+            acc.add(('arg', l))
+        while stack:
+            p = stack.pop()
+            if p in visited:
                 continue
-            sites = []
-            for i, s in enumerate(blk['st']):
-                if s['s'] == 'assign':
-                    if s['place']['pr'] and s['place']['pr'][0]['p'] == 'deref':
-                        continue
-                    sites.append((s['place']['l'], (b, i), not s['place']['pr']))
-                elif s['s'] == 'setdiscr':
-                    sites.append((s['place']['l'], (b, i), False))
-            t = blk['term']
-            if t.get('t') == 'call':
-                sites.append((t['dest']['l'], (b, 'T'), not t['dest']['pr']))
-            for l, site, whole in sites:
-                if whole:
-                    g[l] = (True, {site})
-                else:
-                    k, ss = g.get(l, (False, set()))
-                    g[l] = (k, ss | {site})
-            gen[b] = g
-        IN = [None] * nb
-        entry = {l: frozenset([('arg', l)]) for l in range(1, self.nargs + 1)}
-        IN[0] = entry
-        work = list(self.rpo)
-        OUT = [None] * nb
-        inq = set(work)
-        while work:
-            b = work.pop(0)
-            inq.discard(b)
-            if b == 0:
-                cur = dict(entry)
-                for p in self.pred[0]:
-                    if OUT[p] is not None:
-                        for l, ss in OUT[p].items():
-                            cur[l] = cur.get(l, frozenset()) | ss
-            else:
-                cur = {}
-                for p in self.pred[b]:
-                    if OUT[p] is not None:
-                        for l, ss in OUT[p].items():
-                            cur[l] = cur.get(l, frozenset()) | ss
-            IN[b] = cur
-            out = dict(cur)
-            for l, (kills, ss) in gen[b].items():
-                if kills:
-                    out[l] = frozenset(ss)
-                else:
-                    out[l] = out.get(l, frozenset()) | frozenset(ss)
-            if OUT[b] != out:
-                OUT[b] = out
-                for s in self.succ[b]:
-                    if s not in inq:
-                        work.append(s); inq.add(s)
-        self._rd_in = IN
+            visited.add(p)          # note: b itself is visited (once) when it lies on a loop: its own defs reach its entry
+            lst = self._block_defs(p).get(l)
+            whole = False
+            if lst:
+                for j, w in reversed(lst):
+                    acc.add((p, 'T' if j == 10 ** 9 else j))
+                    if w:
+                        whole = True
+                        break
+            if whole:
+                continue
+            if p == 0 and 1 <= l <= self.nargs:
+                acc.add(('arg', l))
+            stack.extend(self.pred[p])
+        r = frozenset(acc)
+        self._rin_cache[key] = r
+        return r
 
     def reaching(self, l, at):
         """definition sites of local l reaching program point at=(b, i) (before statement i / 'T' = before terminator)"""
-        if self._rd_in is None:
-            self._compute_rd()
         b, i = at
-        cur = (self._rd_in[b] or {}).get(l, frozenset())
-        blk = self.blocks[b]
-        n = len(blk['st']) if i == 'T' else i
-        for j in range(n):
-            s = blk['st'][j]
-            if s['s'] == 'assign' and s['place']['l'] == l:
-                if s['place']['pr'] and s['place']['pr'][0]['p'] == 'deref':
-                    continue
-                if not s['place']['pr']:
-                    cur = frozenset([(b, j)])
-                else:
-                    cur = cur | frozenset([(b, j)])
-            elif s['s'] == 'setdiscr' and s['place']['l'] == l:
-                cur = cur | frozenset([(b, j)])
-        return cur
+        n = len(self.blocks[b]['st']) if i == 'T' else i
+        lst = self._block_defs(b).get(l)
+        if not lst:
+            return self._reach_in(b, l)
+        import bisect
+        k = bisect.bisect_left(lst, (n, False))
+        acc = []
+        while k > 0:
+            k -= 1
+            j, whole = lst[k]
+            acc.append((b, 'T' if j == 10 ** 9 else j))
+            if whole:
+                return frozenset(acc)
+        return self._reach_in(b, l) | frozenset(acc)
 
     # ------------------------------------------------------------------ terms
     def const_term(self, c):
@@ -482,6 +478,14 @@ class Body:
 
     # ------------------------------------------------------------------ guards (4.2)
     def edge_guard(self, a, b):
+        key = (a, b)
+        c = self._guard_cache.get(key, 0)
+        if c == 0:
+            c = self._edge_guard(a, b)
+            self._guard_cache[key] = c
+        return c
+
+    def _edge_guard(self, a, b):
         """the condition under which control goes from block a to its successor b:
         ('sw', discr_term, value|('not', [values])) | ('assert', cond_term, expected) | None (unconditional)"""
         t = self.blocks[a]['term']
